@@ -33,12 +33,39 @@ def pre_parse(args):
     except Exception as e:
         return ['ERR', exc_kind(e)]
 
+# what a job returns when the worker process running it dies (killed for memory, or the interpreter crashes): shaped so that both the
+# sx convention (['ERR', kind]) and the oracle tuples (r[0] .. r[4]) can be read off it
+CRASH = ['ERR', 'WorkerCrash', 0, None, None]
+CRASHED = []          # (function name, repr of the item) of every job that kills its worker even when run alone
+
+def _run_block(fn, block, workers):
+    from concurrent.futures.process import BrokenProcessPool
+    try:
+        with ProcessPoolExecutor(max_workers=min(workers, max(1, len(block)))) as ex:
+            return list(ex.map(fn, block, chunksize=max(1, len(block) // (4 * workers))))
+    except BrokenProcessPool:
+        if len(block) == 1:
+            CRASHED.append((getattr(fn, '__name__', str(fn)), repr(block[0])[:2000]))
+            return [list(CRASH)]
+        mid = len(block) // 2
+        return _run_block(fn, block[:mid], min(workers, 4)) + _run_block(fn, block[mid:], min(workers, 4))
+
 def pmap(fn, items, chunk=64, workers=16):
+    """map fn over items in worker processes.  A worker that dies (out of memory under load, a crash of the interpreter) breaks the whole
+    pool: the map is then redone block by block in fresh pools, halving a block that breaks again, so that a transient death costs a retry
+    and a job that kills its worker every time is isolated and answered with CRASH"""
+    from concurrent.futures.process import BrokenProcessPool
     items = list(items)
     if len(items) < 200:
         return [fn(x) for x in items]
-    with ProcessPoolExecutor(max_workers=workers) as ex:
-        return list(ex.map(fn, items, chunksize=chunk))
+    try:
+        with ProcessPoolExecutor(max_workers=workers) as ex:
+            return list(ex.map(fn, items, chunksize=chunk))
+    except BrokenProcessPool:
+        out = []
+        for i in range(0, len(items), 512):
+            out += _run_block(fn, items[i:i + 512], workers)
+        return out
 
 # ---------------------------------------------------------------------------------------
 # end-to-end conversion with a canonical, date-free serialisation
